@@ -22,6 +22,11 @@ EXPLANATION = (
     "nested svg are saved on the element stack and restored on every pop, so percentages after the nested svg refer to the outer "
     "viewport again. "
     "Not decided: the geometry of generated documents; reify=True vs reify=False equality."
+    " R03.11: the viewport transform is a factor of every nested shape's geometry, so C11's whole rule set"
+    ' (algorithm steps per align value, None guards, output elision, size defaulting, incomplete viewBox) runs'
+    ' here as well and reports under this property. R03.12: `reify=True` and `reify=False` must give the same'
+    ' geometry, so the reify algebra of C02 (Rect / round shapes: guard on both skew entries, attributes ='
+    ' image under scale+translate, transform left as the identity) runs here too.'
 )
 TECHNIQUE = (
     "static analysis (no execution): attribute-key tables read off property_by_values vs keys removed from the inherited dictionary; path counting of push/pop over the statement structure; typestate order render-before-reify; axis/reference agreement in render methods"
